@@ -19,6 +19,7 @@
 #include <sanitizer/asan_interface.h>
 
 #include <fcntl.h>
+#include <signal.h>
 #include <sys/time.h>
 #include <sys/select.h>
 
@@ -48,6 +49,29 @@ static TickitString *S[MAXO]; static int Sref[MAXO]; static int nS;
 static TickitRenderBuffer *B[MAXO]; static int Bref[MAXO]; static int nB;
 
 static int in_fd[2] = { -1, -1 };   /* `newin`: the terminal reads from in_fd[0] */
+/* further terminals (`xnew`): no root window, no input; they exist to stand in the process-wide list of SIGWINCH
+ * observers (tickit_term_observe_sigwinch) next to the main terminal */
+#define MAXX 8
+static TickitTerm *X[MAXX]; static int Xref[MAXX]; static int nX;
+static int heldx(int i);
+
+/* libtermkey is not built with the sanitizer: a TermKey the library has destroyed and goes on using would be
+ * touched unseen.  get_termkey() (src/term.c) passes tt->termkey to termkey_get_canonflags() at the start of every
+ * input entry point: look at the object there with an instrumented load (engines.d/C08.json links with
+ * -Wl,--wrap=termkey_get_canonflags), so that AddressSanitizer reports the use of a freed TermKey where it happens */
+int __real_termkey_get_canonflags(void *tk);
+int __wrap_termkey_get_canonflags(void *tk)
+{
+  volatile char probe = *(volatile char *)tk; (void)probe;
+  return __real_termkey_get_canonflags(tk);
+}
+
+static int winch_handled(void)
+{
+  struct sigaction sa;
+  if(sigaction(SIGWINCH, NULL, &sa) != 0) return -1;
+  return sa.sa_handler != SIG_DFL && sa.sa_handler != SIG_IGN;
+}
 /* `newtop`: the toplevel instance.  It owns the terminal and the root window; the application takes its own
  * reference to each handle it keeps (tickit_window_ref(tickit_get_rootwin(t)), tickit_term_ref(tickit_get_term(t))) */
 static Tickit *TK; static int tk_refs;
@@ -134,6 +158,7 @@ static void dump(void)
   if(!nB) obs("-");
   obs(" | T %d", alive(tt));
   if(TK) obs(" | I %d", alive(TK));
+  if(nX) { obs(" | X "); for(int i = 0; i < nX; i++) obs("%d", alive(X[i])); }
 }
 
 /* ---- the operations a handler may also perform ------------------------------------------------ */
@@ -227,6 +252,7 @@ static int on_term_event(TickitTerm *term, TickitEventFlags flags, void *info, v
 }
 
 static int heldi(void) { return TK && tk_refs > 0 && alive(TK); }
+static int heldx(int i) { return i >= 0 && i < nX && Xref[i] > 0 && alive(X[i]); }
 
 /* watches of the toplevel instance (tickit_watch_later / tickit_watch_timer_after_msec): behaviour tables again */
 struct wbeh { int used; int timer; int pending; void *watch; int nacts; struct act acts[MAXA]; };
@@ -287,6 +313,7 @@ static void engine_begin(void)
   memset(WBEH, 0, sizeof WBEH); nWBEH = 0;
   in_fd[0] = in_fd[1] = -1; fake_ms = 0;
   TK = NULL; tk_refs = 0;
+  memset(X, 0, sizeof X); memset(Xref, 0, sizeof Xref); nX = 0;
 }
 
 static void engine_end(void) { }
@@ -305,6 +332,9 @@ static void drop_all(void)
     while(heldb(i)) { Bref[i]--; tickit_renderbuffer_unref(B[i]); }
   while(heldt()) { tt_refs--; tickit_term_unref(tt); }
   while(heldi()) { tk_refs--; tickit_unref(TK); }
+  /* the further terminals go last, in the order they were made */
+  for(int i = 0; i < nX; i++)
+    while(heldx(i)) { Xref[i]--; tickit_term_unref(X[i]); }
 }
 
 static int __attribute__((noinline)) leak_check(void)
@@ -317,6 +347,7 @@ static int __attribute__((noinline)) leak_check(void)
   memset(TBEH, 0, sizeof TBEH);
   memset(WBEH, 0, sizeof WBEH);
   TK = NULL;
+  memset(X, 0, sizeof X);
   return __lsan_do_recoverable_leak_check() ? 1 : 0;
 }
 
@@ -585,6 +616,46 @@ static void engine_op(int argc, char **argv)
     int r = tickit_term_input_check_timeout_msec(tt);
     obs("ret=%d", r); dump(); return;
   }
+  /* ---- SIGWINCH observers: the main terminal (`tobs`) and the further ones (`xnew`, `xobs`, `xref`, `xunref`), and
+   * the signal itself (`winch`).  A walk of the observer list that never ends is cut short by the alarm (0.3 s). */
+  if(strcmp(op, "xnew") == 0) {
+    if(nX >= MAXX) { obs("skip"); dump(); return; }
+    X[nX] = tickit_term_build(&(struct TickitTermBuilder){ .termtype = "xterm", .output_func = outf }); Xref[nX] = 1; nX++;
+    obs("ok"); dump(); return;
+  }
+  if(strcmp(op, "xref") == 0 && argc == 2) {
+    int i = A(1);
+    if(!heldx(i)) { obs("skip"); dump(); return; }
+    Xref[i]++; tickit_term_ref(X[i]); obs("ok"); dump(); return;
+  }
+  if(strcmp(op, "xunref") == 0 && argc == 2) {
+    int i = A(1);
+    if(!heldx(i)) { obs("skip"); dump(); return; }
+    ualarm(300000, 0);
+    Xref[i]--; tickit_term_unref(X[i]);
+    alarm(60);
+    obs("ok h=%d", winch_handled()); dump(); return;
+  }
+  if((strcmp(op, "xobs") == 0 && argc == 3) || (strcmp(op, "tobs") == 0 && argc == 2)) {
+    int isx = op[0] == 'x', i = isx ? A(1) : -1;
+    if(isx ? !heldx(i) : !heldt()) { obs("skip"); dump(); return; }
+    ualarm(300000, 0);
+    tickit_term_observe_sigwinch(isx ? X[i] : tt, A(isx ? 2 : 1) != 0);
+    alarm(60);
+    obs("ok h=%d", winch_handled()); dump(); return;
+  }
+  if(strcmp(op, "winch") == 0) {
+    ualarm(300000, 0);
+    raise(SIGWINCH);
+    alarm(60);
+    obs("ok h=%d", winch_handled()); dump(); return;
+  }
+  if(strcmp(op, "tsetin") == 0) {
+    /* tickit_term_set_input_fd on a terminal that reads from the pipe already: the same descriptor again */
+    if(!heldt() || in_fd[0] < 0) { obs("skip"); dump(); return; }
+    tickit_term_set_input_fd(tt, in_fd[0]);
+    obs("ok fd=%d", tickit_term_get_input_fd(tt) == in_fd[0]); dump(); return;
+  }
   if(strcmp(op, "tick") == 0 && argc == 2) { fake_ms += A(1); obs("ok"); dump(); return; }
   /* ---- the toplevel instance */
   if(strcmp(op, "iref") == 0) {
@@ -723,9 +794,24 @@ static void engine_op(int argc, char **argv)
     free(bytes);
     obs("ok"); dump(); return;
   }
+  if(strcmp(op, "mresize") == 0 && argc == 3) {
+    /* tickit_mockterm_resize: rows and columns dropped, kept and added in one call; the terminal reports the new
+     * size (and tells the root window, if there still is one) */
+    if(!is_mock || !heldt()) { obs("skip"); dump(); return; }
+    tickit_mockterm_resize((TickitMockTerm *)tt, A(1), A(2));
+    int l = -1, c = -1;
+    tickit_term_get_size(tt, &l, &c);
+    obs("ok size=%dx%d", l, c); dump(); return;
+  }
   if(strcmp(op, "mdisp") == 0 && argc == 5) {
     /* tickit_mockterm_get_display_text(buffer of exactly LEN bytes, LEN, line, col, width) */
     if(!is_mock || !heldt()) { obs("skip"); dump(); return; }
+    {
+      /* a well-behaved application asks for cells of the screen as it is now (after tickit_mockterm_resize) */
+      int tl = 0, tc = 0;
+      tickit_term_get_size(tt, &tl, &tc);
+      if(A(2) < 0 || A(2) >= tl || A(3) < 0 || A(4) < 0 || A(3) + A(4) > tc) { obs("skip"); dump(); return; }
+    }
     long len = atol(argv[1]);
     char *buf = len >= 0 ? malloc(len ? len : 1) : NULL;
     if(buf) memset(buf, 0x55, len ? len : 1);
